@@ -69,10 +69,12 @@ Definition target (o : op) : option nat :=
   | _ => None
   end.
 
-(* producers outside the anchors: the stated hypothesis is that they store no vector under two vertex ids *)
+(* producers outside the anchors that do NOT build their result through prepare() (caller arrays, PointCloud.append,
+   extract_boundary_of_surface): the stated hypothesis is that they store no vector under two vertex ids.
+   Results built through prepare() need no hypothesis: prepare() gives every vertex a buffer of its own. *)
 Definition op_ok (w : world) (o : op) : Prop :=
   match o with
-  | ONew pat _ _ _ _ _ => forall m' cs, build_ext (wobjs w) (wmem w) pat = Some (m', cs) -> NoDup cs
+  | ONew false pat _ _ _ _ _ => forall m' cs, build_ext (wobjs w) (wmem w) pat = Some (m', cs) -> NoDup cs
   | _ => True
   end.
 
@@ -236,10 +238,16 @@ Proof.
          right; exists i, so, m', cs'; repeat split; auto using get_mesh_nth; fail).
   - (* ONew *)
     left. split; auto. cbn [step] in Hs. destruct (build_ext (wobjs w) (wmem w) pat) as [[m1 cs]|] eqn:E; [|discriminate].
-    inversion Hs; subst. exists m1, (mkobj cs e f c cn k).
-    pose proof (Hok _ _ E) as Hnd.
+    pose proof E as E0.
     apply build_ext_spec with (O := O) in E as [Hf Hal]; [|apply wf_objs_allocated; auto].
-    split; [reflexivity|split; [exact Hf|split; [exact Hnd|exact Hal]]].
+    destruct prep.
+    + rewrite prepare_copies in Hs. destruct (take O Copy m1 cs) as [m2 cs2] eqn:Et. inversion Hs; subst.
+      apply take_copy_fresh in Et as (Hfb & Hf2 & _).
+      exists m2, (mkobj cs2 e f c cn k).
+      split; [reflexivity|split; [eapply frame_trans; eauto|split; [apply Hfb|]]].
+      simpl. now apply fresh_block_allocated with (m := m1).
+    + inversion Hs; subst. exists m1, (mkobj cs e f c cn k).
+      split; [reflexivity|split; [exact Hf|split; [exact (Hok _ _ E0)|exact Hal]]].
   - (* OFromArrays *)
     left. split; auto. cbn [step] in Hs. destruct (nth_error (wobjs w) a) as [ao|] eqn:Ea; [|discriminate].
     destruct (is_mesh ao); [discriminate|].
